@@ -204,6 +204,7 @@ def modelledSites : List Site := [
   ("SelectStatement.GroupByInterval", "index", "call.Args[0]"),
   ("SelectStatement.GroupByOffset", "divide", "expr.Val % interval"),
   ("SelectStatement.GroupByOffset", "index", "call.Args[1]"),
+  sRFAssert, sRFArgs0,
   sRegexVals0, sRegexValsI,
   sTimeFieldsIdx, sTimeFieldsPre, sTimeFieldsPost,
   sTimeAscending,
@@ -223,7 +224,7 @@ def modelledFunctions : List String := [
   "CloneExpr", "CreateContinuousQueryStatement.RequiredPrivileges", "Dimensions.Normalize",
   "ExprsToConjunction", "Fields.Less", "Fields.Swap", "SelectStatement.ColumnNames",
   "SelectStatement.FieldExprByName", "SelectStatement.GroupByInterval", "SelectStatement.GroupByOffset",
-  "SelectStatement.RewriteRegexConditions", "SelectStatement.RewriteTimeFields",
+  "SelectStatement.RewriteFields", "SelectStatement.RewriteRegexConditions", "SelectStatement.RewriteTimeFields",
   "SelectStatement.TimeAscending", "TypeValuerEval.evalCallExprType", "ValuerEval.Eval",
   "ValuerEval.evalBinaryExpr", "VarRefs.Less", "VarRefs.Strings", "VarRefs.Swap", "cloneSource",
   "matchExactRegex", "matchRegex",
@@ -237,14 +238,14 @@ breaks this obligation until the model has a primitive for it. -/
 theorem gen_modelled_sites :
     sitesAst.filter (fun s => modelledFunctions.contains s.1) = modelledSites := by decide
 
-/-- 53 of the 71 inventoried sites are covered by a checked primitive and a theorem. -/
-theorem gen_modelled_sites_count : modelledSites.length = 53 ∧ sitesAst.length = 71 := by decide
+/-- 55 of the 71 inventoried sites are covered by a checked primitive and a theorem. -/
+theorem gen_modelled_sites_count : modelledSites.length = 55 ∧ sitesAst.length = 71 := by decide
 
-/-- The remaining 18 sites (reviewed list only): `Rewrite` with a caller-supplied `Rewriter`
-(13 assertions), `RewriteFields` (2), the protobuf codec of `Sources` (3). -/
+/-- The remaining 16 sites (reviewed list only): `Rewrite` with a caller-supplied `Rewriter`
+(13 assertions) and the protobuf codec of `Sources` (3). -/
 theorem gen_unmodelled_functions :
     ((sitesAst.filter (fun s => !modelledFunctions.contains s.1)).map (·.1)).eraseDups
-      = ["Rewrite", "SelectStatement.RewriteFields", "Sources.MarshalBinary", "Sources.UnmarshalBinary"] := by
+      = ["Rewrite", "Sources.MarshalBinary", "Sources.UnmarshalBinary"] := by
   decide
 
 /-! ## `ColumnNames`, `FieldExprByName`, `TimeAscending`, `ExprsToConjunction`, `RewriteTimeFields` -/
@@ -357,7 +358,8 @@ theorem rewriteRegexCondition_no_panic (parseRe : Str → Option Rx.Regex) (c : 
 character class an even number of bounds with `lo ≤ hi`; leaves have none) the checked
 `matchRegex` — `re.Sub[0]`, `re.Sub[1:]`, `names[0]`, `vals[0]`, `concat[i*len(vals)+j]`,
 `re.Rune[i]`, `re.Rune[i+1]` — does not panic. The hypothesis is a guarantee of the standard
-library, not of the parser; the harness checks it on every tree it ships (stream `regex.match`). -/
+library, not of the parser; the oracle of the C11 streams (`regex.match`, `regex.sem`) checks it on
+every tree it is sent. -/
 theorem matchRegex_no_panic (re : Rx.Regex) (hw : re.wf = true) :
     (Checked.matchRegex re).isPanic = false := Checked.matchRegex_np re hw
 
@@ -369,6 +371,32 @@ theorem matchExactRegex_no_panic (re : Rx.Regex) (hw : re.wf = true) :
 /-- The hypothesis of `matchRegex_no_panic` is needed: a capture node without sub-expression (never
 built by `regexp/syntax`) makes `re.Sub[0]` panic. -/
 theorem matchRegex_needs_wf : (Checked.matchRegex (.mk .capture 0 [] [])).isPanic = true := by decide
+
+/-! ## `RewriteFields`: the two sites of the wildcard expansion of a call field -/
+
+/-- **C13 (RewriteFields, `case *Call:`).** For a field that is a call, `CloneExpr(expr).(*Call)`
+holds (the clone of a call is a call), and `call.Args[0]` is read only behind `len(call.Args) > 0`
+(in the descent) or after `len(call.Args) == 0` was excluded: no panic, whatever the fuel given to
+the descent loop (`.err` = fuel exhausted) … -/
+theorem rewriteFieldsCallHead_no_panic (fuel : Nat) (name : Str) (args : List Expr) :
+    (Checked.rewriteFieldsCallHead fuel (.call name args)).isPanic = false :=
+  Checked.rewriteFieldsCallHead_np fuel name args
+
+/-- … and the descent ends: for some fuel the prologue returns a value. -/
+theorem rewriteFieldsCallHead_terminates (name : Str) (args : List Expr) :
+    ∃ fuel r, Checked.rewriteFieldsCallHead fuel (.call name args) = .ok r := by
+  obtain ⟨fuel, ⟨cn, cargs⟩, h⟩ := Checked.innerCallLoop_terminates name args
+  refine ⟨fuel, ?_⟩
+  unfold Checked.rewriteFieldsCallHead
+  rw [Checked.cloneExpr_eq]
+  simp only [Checked.ok_bind, Checked.asCall, Checked.assertT]
+  rw [h]
+  simp only [Checked.ok_bind]
+  by_cases hc : cargs.length = 0
+  · rw [if_pos hc]; exact ⟨_, rfl⟩
+  · rw [if_neg hc, Checked.idx_of_eq Checked.sRFArgs0 cargs (i := 0) (n := 0) (x := cargs[0]) rfl
+      (List.getElem?_eq_getElem (by omega))]
+    exact ⟨_, rfl⟩
 
 /-! ## `Reduce`, `Eval` -/
 
